@@ -6,6 +6,7 @@ package main
 // message, cache admission) is reached.
 
 import (
+	"bytes"
 	"compress/gzip"
 	"encoding/binary"
 	"fmt"
@@ -37,13 +38,20 @@ type damageCase struct {
 	Input  []byte  `json:"input"` // base64 in JSON
 	Probes []qspec `json:"probes,omitempty"`
 	Seed   int64   `json:"seed"`
+	// LiveLimit > 0: a loader that streams block by block needs a few block
+	// lengths of memory for this input whatever its size; the heap that is
+	// still LIVE (after a forced collection) at every read of the input must
+	// not have grown by more than this many bytes.
+	LiveLimit int64 `json:"live_limit,omitempty"`
 }
+
+const liveLimitStream = 24 << 20 // 24 x the 1 MiB block limit
 
 var damageKinds = []string{
 	"random-bytes", "gzip-header-games", "wrong-name", "wrapped-random", "wrapped-block-length",
 	"wrapped-random-protobuf", "wrapped-hostile-entries", "wrapped-hostile-valid", "wrapped-many-tiny-entries",
 	"flip-compressed", "flip-raw-rewrap", "splice", "trailer-games", "prefix-plus-garbage", "raw-truncate-rewrap",
-	"wrapped-zero-blocks-bomb",
+	"many-blocks-stream", "wrapped-zero-blocks-bomb",
 }
 
 func randBytes(rng *rand.Rand, n int) []byte {
@@ -245,9 +253,12 @@ func flipBytes(rng *rand.Rand, b []byte, n int, lo, hi int) string {
 // genDamage deterministically produces damaged input number idx.
 func genDamage(seed int64, idx int, dc *damageCtx, thorough bool) damageCase {
 	rng := rand.New(rand.NewSource(seed*2654435761 + int64(idx)*40503 + 11))
-	kind := damageKinds[idx%(len(damageKinds)-1)] // the bomb is scheduled explicitly
+	kind := damageKinds[idx%(len(damageKinds)-2)] // the last two families are scheduled explicitly
 	if idx%97 == 13 {
 		kind = "wrapped-zero-blocks-bomb"
+	}
+	if idx%101 == 7 {
+		kind = "many-blocks-stream"
 	}
 	c := damageCase{Idx: idx, Kind: kind, Seed: seed}
 	now := time.Now().Unix()
@@ -329,6 +340,77 @@ func genDamage(seed int64, idx int, dc *damageCtx, thorough bool) damageCase {
 		}
 		c.Input = gzipWrap(dumpName, make([]byte, 8*n), gzip.BestCompression)
 		c.Desc = fmt.Sprintf("%d zero-length blocks (%d bytes compressed)", n, len(c.Input))
+		c.LiveLimit = liveLimitStream
+	case "many-blocks-stream":
+		// Well-formed stream of many blocks close to the 1 MiB limit that
+		// compress ~1000:1 and carry few or no admissible entries: a streaming
+		// loader holds about one block at a time.
+		nblk := 100 + rng.Intn(101)
+		if thorough {
+			nblk = 100 + rng.Intn(301)
+		}
+		variant := rng.Intn(4)
+		pad := func(blk []byte, total int, fill byte) []byte { // one big unknown field up to total bytes
+			n := total - len(blk) - 5
+			if n < 0 {
+				n = 0
+			}
+			p := make([]byte, n)
+			if fill != 0 {
+				for i := range p {
+					p[i] = fill
+				}
+			}
+			return pbBytes(blk, 15, p)
+		}
+		var raw bytes.Buffer
+		vdesc := ""
+		for i := 0; i < nblk; i++ {
+			size := 1<<20 - 64 - rng.Intn(1024)
+			var blk []byte
+			switch variant {
+			case 0:
+				vdesc = "no entries, one unknown field of zeros"
+				blk = pad(nil, size, 0)
+			case 1:
+				vdesc = "3 live entries (same keys in every block) then an unknown field of zeros"
+				for k := 0; k < 3 && k < len(dc.Keys); k++ {
+					kq := dc.Keys[k]
+					m := wire.NewBuilder(1, 0x8180).Question(wire.EncodeName(kq.Q.Name), kq.Q.Qtype, 1).RR(0, wire.EncodeName(kq.Q.Name), 1, 1, 300, []byte{192, 0, 2, byte(i)}).Bytes()
+					blk = pbBytes(blk, 1, encodeEntry(dumpEntry{Key: kq.Key, Msg: m, CacheExp: now + 3600, MsgExp: now + 300, Stored: now}))
+				}
+				if len(c.Probes) == 0 {
+					for k := 0; k < 3 && k < len(dc.Keys); k++ {
+						c.Probes = append(c.Probes, dc.Keys[k].Q)
+					}
+				}
+				blk = pad(blk, size, 0)
+			case 2:
+				vdesc = "4 expired entries with 60 KB TXT answers per block, then an unknown field of zeros"
+				kq := pickKey()
+				rawName := wire.EncodeName(kq.Q.Name)
+				b := wire.NewBuilder(1, 0x8180).Question(rawName, 16, 1)
+				txt := make([]byte, 0, 256*235)
+				for t := 0; t < 235; t++ {
+					txt = append(txt, 255)
+					txt = append(txt, make([]byte, 255)...)
+				}
+				b.RR(0, rawName, 16, 1, 300, txt)
+				e := encodeEntry(dumpEntry{Key: kq.Key, Msg: b.Bytes(), CacheExp: now - 100, MsgExp: now - 100, Stored: now - 400})
+				for k := 0; k < 4; k++ {
+					blk = pbBytes(blk, 1, e)
+				}
+				blk = pad(blk, size, 0)
+			default:
+				vdesc = "no entries, blocks of 0.5-1 MiB, unknown field of 0xAA"
+				size = 1<<19 + rng.Intn(1<<19-64)
+				blk = pad(nil, size, 0xAA)
+			}
+			raw.Write(frameBlock(blk))
+		}
+		c.Input = gzipWrap(dumpName, raw.Bytes(), gzip.BestCompression)
+		c.Desc = fmt.Sprintf("%d well-formed blocks near the 1 MiB limit (%s): %d bytes compressed, %d MiB uncompressed", nblk, vdesc, len(c.Input), raw.Len()>>20)
+		c.LiveLimit = liveLimitStream
 	case "wrapped-random-protobuf":
 		var r []byte
 		for n := 1 + rng.Intn(4); n > 0; n-- {
